@@ -354,6 +354,11 @@ def run(c):
     for i, (case, res) in enumerate(zip(cases, results)):
         if res is None or not res["routed"]:
             continue
+        if res["used"] in res["mat_err"]:
+            # the layer's own materialisation statement failed for this rollup (e.g. no time dimension and no dimensions: "GROUP BY" with
+            # nothing after it), so there is no rollup table "built by the layer's own statement": outside the property's premise
+            stats["rollup_not_materialisable"] = stats.get("rollup_not_materialisable", 0) + 1
+            continue
         same = res["err"] is None and res["rows"] == res["base"]
         if same:
             stats["routed_equal"] += 1
